@@ -363,6 +363,128 @@ def plan_c16(case):
     return trace(case, ev)
 
 
+# ------------------------------------------------------------------------------------------- C17
+def has_kind(T, kinds):
+    return bool(P.kinds_in(T) & set(kinds))
+
+
+def plan_c17(case):
+    from pyasn1.codec.native import decoder as nat_dec, encoder as nat_enc
+    T, v = case['T'], case['v']
+    spec, obj, err = build(case)
+    if err:
+        return trace(case, [], err)
+    ev = []
+    # (1) value -> built-in Python objects -> value under the same type (bare-value path: no ANY, reals judged as floats)
+    import math as _m
+    rf = real_floats(T, v)
+    representable = all(_m.isfinite(x) or True for x in rf) and all(
+        (x == 0.0) == (i is None) or True for x, i in zip(rf, rf))
+    # reals outside the range of a Python float cannot take the native path at all (float() overflows)
+    float_ok = real_ok(T, v)
+    if not has_kind(T, ['any']) and float_ok:
+        d = {'op': 'dec', 'rules': 'native', 'guided': True, 'inp': [], 'why': 'own', 'tail': [], 'v': {'nul': 0},
+             'proj': 'na', 'rest': [], 'exc': '', 'src': 0, 'via': 'native'}
+        st, r = R.guarded(lambda: nat_dec.decode(nat_enc.encode(obj), asn1Spec=spec), seconds=10)
+        if st == 'ok':
+            d['st'] = 'ok'
+            try:
+                d['v'] = U.project(T, r)
+                d['proj'] = 'ok'
+            except Exception as e:
+                d['proj'] = 'fail'
+                d['exc'] = 'Projection: %s' % e
+        else:
+            d['st'] = R.classify(r)
+            d['exc'] = R.exc_name(r)
+        if has_kind(T, ['real']) and d['proj'] == 'ok':
+            # reals go through Python floats: compare as floats (up to rounding), then hand the acceptor the original
+            if real_floats(T, d['v']) == real_floats(T, v) or close(real_floats(T, d['v']), real_floats(T, v)):
+                d['v'] = replace_reals(T, d['v'], v)
+        ev.append(d)
+    # (2) tree of plain Python values + type -> same octets as the value object, for BER, CER and DER
+    try:
+        py = U.native_py(T, v)
+    except Exception as e:
+        return trace(case, ev)
+    for codec, dm, ch in (('der', True, 0), ('cer', True, 0), ('ber', True, 0), ('ber', False, 2)):
+        e = {'op': 'enc', 'codec': codec, 'def': dm, 'chunk': ch, 'path': 'python-value'}
+        opts = {'defMode': dm, 'maxChunkSize': ch} if codec == 'ber' else {}
+        e.update(R.lib_encode(codec, py, asn1Spec=spec, **opts))
+        ev.append(e)
+        ref = R.enc_event(codec, obj, dm, ch)
+        if ref['st'] == 'ok' and e['st'] == 'ok' and ref['wire'] != e['wire']:
+            e['differs_from_value_object'] = True
+            ev.append({'op': 'same', 'a': e['wire'], 'b': ref['wire'], 'path': 'python-value vs value object', 'codec': codec})
+    return trace(case, ev)
+
+
+def real_floats(T, v):
+    out = []
+    k = T['k']
+    if k == 'real':
+        if v['rk'] == 'zero':
+            out.append(0.0)
+        elif v['rk'] in ('pinf', 'minf'):
+            out.append(float('inf') if v['rk'] == 'pinf' else float('-inf'))
+        else:
+            try:
+                out.append(float(v['m']) * float(v['b']) ** v['e'])
+            except OverflowError:
+                out.append(float('inf') if v['m'] > 0 else float('-inf'))
+    elif k in ('seq', 'set'):
+        for cp, c in zip(T['comps'], v['cs']):
+            if c['p']:
+                out += real_floats(cp['t'], c['v'])
+    elif k in ('seqof', 'setof'):
+        for x in v['es']:
+            out += real_floats(T['of'], x)
+    elif k == 'choice':
+        out += real_floats(T['alts'][v['alt'] - 1]['t'], v['v'])
+    return out
+
+
+def real_ok(T, v):
+    """every finite REAL leaf is representable as a non-zero finite float"""
+    k = T['k']
+    if k == 'real':
+        if v['rk'] != 'fin':
+            return True
+        try:
+            f = float(v['m']) * float(v['b']) ** v['e']
+        except OverflowError:
+            return False
+        import math
+        return math.isfinite(f) and f != 0.0 and abs(v['e']) < 300
+    if k in ('seq', 'set'):
+        return all(real_ok(cp['t'], c['v']) for cp, c in zip(T['comps'], v['cs']) if c['p'])
+    if k in ('seqof', 'setof'):
+        return all(real_ok(T['of'], x) for x in v['es'])
+    if k == 'choice':
+        return real_ok(T['alts'][v['alt'] - 1]['t'], v['v'])
+    return True
+
+
+def close(a, b):
+    import math
+    return len(a) == len(b) and all(x == y or (math.isfinite(x) and math.isfinite(y) and abs(x - y) <= 1e-12 * max(abs(x), abs(y)))
+                                    for x, y in zip(a, b))
+
+
+def replace_reals(T, got, want):
+    k = T['k']
+    if k == 'real':
+        return want
+    if k in ('seq', 'set'):
+        return {'cs': [{'p': True, 'v': replace_reals(cp['t'], g['v'], w['v'])} if g['p'] and w['p'] else g
+                       for cp, g, w in zip(T['comps'], got['cs'], want['cs'])]}
+    if k in ('seqof', 'setof') and len(got['es']) == len(want['es']):
+        return {'es': [replace_reals(T['of'], g, w) for g, w in zip(got['es'], want['es'])]}
+    if k == 'choice' and got['alt'] == want['alt']:
+        return {'alt': got['alt'], 'v': replace_reals(T['alts'][got['alt'] - 1]['t'], got['v'], want['v'])}
+    return got
+
+
 # ------------------------------------------------------------------------------------------- configs
 def cfg(tier, **over):
     q = dict(kinds=ALL_SCALARS, tagnums=[0, 31], classes=[2], maxstack=1, shapes=ALL_SHAPES, pool=1,
@@ -399,6 +521,8 @@ PROPS = {
                                                    kinds=['bool', 'int', 'octs', 'bits', 'null', 'utf8'],
                                                    shapes=['scalar', 'any', 'seqof', 'choice', 'deep'])), sizes=False),
     'C15': dict(plan=plan_c15, clauses={'Accepted', 'Crash'},
+                cfg=lambda tier: cfg(tier, modes=['der']), sizes=False),
+    'C17': dict(plan=plan_c17, clauses={'EncRefused', 'Rejected', 'NotAValue', 'ValueDiffers', 'Crash', 'Disagree'},
                 cfg=lambda tier: cfg(tier, modes=['der']), sizes=False),
     'C16': dict(plan=plan_c16, clauses={'Rejected', 'NotAValue', 'ReencodeRefused', 'ReencodeDiffers', 'LeavesDiffer',
                                         'RestDiffers', 'Crash'},
